@@ -63,7 +63,7 @@ def run(ctx):
     rep = ctx.rep
     rng = Rng(ctx.seed, 11)
     items = []
-    for i in range(ctx.budget(500, 20000)):
+    for i in range(ctx.budget(250, 20000)):
         r = rng.fork(i)
         text = descs.any_text(r)
         extra = r.choice(['', '', 'segment', 'sec_within', 'sec_colon_required', 'parse_qq', 'ocr_scrub'])
